@@ -280,25 +280,67 @@ theorem ctlStep_expand (s : St) (c : CtlOp) (hc : ¬ IsUpdAttrs c) :
     (s.ctlStep c).1 = finalSt s (ctlExpand s c) := by
   rw [ctlStep_runs s c hc, runOps_state, ctlExpand, finalSt_append]
 
-/-! ## §4 `update_node_attrs` -/
+/-! ## §4 `update_node_attrs` (as repaired: a raising element rolls the earlier ones back) -/
+
+abbrev LoopAcc := St × List PrimRec × Option Err
 
 /-- the loop body of `_update_node_attrs` -/
-def updF (cols : List (Key × List Val)) (acc : UOut) (p : Nat × Node) : UOut :=
-  thenPrim acc (fun st =>
+def loopF (cols : List (Key × List Val)) (acc : LoopAcc) (p : Nat × Node) : LoopAcc :=
+  match acc.2.2 with
+  | some _ => acc
+  | none =>
     match attrRow cols p.1 with
-    | none => .error .other
-    | some row => st.pUpdAttrs p.2 row)
+    | none => (acc.1, acc.2.1, some .other)
+    | some row =>
+      match acc.1.pUpdAttrs p.2 row with
+      | .ok (s', r) => (s', acc.2.1 ++ [r], none)
+      | .error e => (acc.1, acc.2.1, some e)
 
-theorem updRows_eq (s : St) (ns : List Node) (cols : List (Key × List Val)) :
-    s.updRows ns cols = (indexed ns).foldl (updF cols) (s, .ok []) := rfl
+theorem updLoop_eq (s : St) (ns : List Node) (cols : List (Key × List Val)) :
+    s.updLoop ns cols = (indexed ns).foldl (loopF cols) (s, [], none) := rfl
 
-theorem updF_err (cols : List (Key × List Val)) (u : St) (e : Err) (p : Nat × Node) :
-    updF cols (u, .error e) p = (u, .error e) := thenPrim_err_acc rfl _
+theorem loopF_err (cols : List (Key × List Val)) (u : St) (recs : List PrimRec) (e : Err) (p : Nat × Node) :
+    loopF cols (u, recs, some e) p = (u, recs, some e) := rfl
 
-theorem fold_err (cols : List (Key × List Val)) : ∀ (l : List (Nat × Node)) (u : St) (e : Err),
-    l.foldl (updF cols) (u, .error e) = (u, .error e)
-  | [], _, _ => rfl
-  | p :: l, u, e => by rw [foldl_cons, updF_err, fold_err cols l]
+theorem loop_err (cols : List (Key × List Val)) : ∀ (l : List (Nat × Node)) (u : St) (recs : List PrimRec)
+    (e : Err), l.foldl (loopF cols) (u, recs, some e) = (u, recs, some e)
+  | [], _, _, _ => rfl
+  | p :: l, u, recs, e => by rw [foldl_cons, loopF_err, loop_err cols l]
+
+/-- one step of the loop from a state that has not failed -/
+theorem loopF_cases (cols : List (Key × List Val)) (u : St) (recs : List PrimRec) (p : Nat × Node) :
+    (∃ e, loopF cols (u, recs, none) p = (u, recs, some e)) ∨
+    (∃ row u' r, attrRow cols p.1 = some row ∧ u.pUpdAttrs p.2 row = .ok (u', r) ∧
+      loopF cols (u, recs, none) p = (u', recs ++ [r], none)) := by
+  unfold loopF
+  simp only
+  cases hrow : attrRow cols p.1 with
+  | none => exact .inl ⟨.other, rfl⟩
+  | some row =>
+    cases hp : u.pUpdAttrs p.2 row with
+    | error e => exact .inl ⟨e, by simp only [hp]⟩
+    | ok v => exact .inr ⟨row, v.1, v.2, rfl, hp, by simp only [hp]⟩
+
+/-- the generic invariant of the loop: whatever `P` every accepted `UpdateNodeAttrs` keeps (on rows
+    satisfying `Q`), the state the loop stops in satisfies `P` and is reached from `s` by a lawful
+    chain whose records are exactly the list `actions` — also when the loop was ended by an
+    exception -/
+theorem loop_fold (s : St) (cols : List (Key × List Val)) (P : St → Prop)
+    (Q : Node → List (Key × Val) → Prop)
+    (hstep : ∀ u u' n row r, P u → Q n row → u.pUpdAttrs n row = .ok (u', r) → Chain E u [r] u' ∧ P u') :
+    ∀ (l : List (Nat × Node)) (u : St) (recs0 : List PrimRec), P u → Chain E s recs0 u →
+    (∀ p ∈ l, ∀ row, attrRow cols p.1 = some row → Q p.2 row) →
+      Chain E s (l.foldl (loopF cols) (u, recs0, none)).2.1 (l.foldl (loopF cols) (u, recs0, none)).1 ∧
+      P (l.foldl (loopF cols) (u, recs0, none)).1
+  | [], _, _, hP, hc, _ => ⟨hc, hP⟩
+  | p :: l, u, recs0, hP, hc, hQ => by
+    rw [foldl_cons]
+    rcases loopF_cases cols u recs0 p with ⟨e, he⟩ | ⟨row, u', r, hrow, hp, he⟩
+    · rw [he, loop_err]; exact ⟨hc, hP⟩
+    · rw [he]
+      obtain ⟨c1, p1⟩ := hstep u u' p.2 row r hP (hQ p (by simp) row hrow) hp
+      exact loop_fold s cols P Q hstep l u' (recs0 ++ [r]) p1 (chain_append hc c1)
+        (fun q hq => hQ q (by simp [hq]))
 
 theorem opPre_updAttrs_congr {s u : St} (hc : u.cfg = s.cfg) (hs : u.seg = s.seg) {n : Node}
     {row : List (Key × Val)} (h : OpPre s (.updAttrs n row)) : OpPre u (.updAttrs n row) := by
@@ -308,15 +350,18 @@ theorem opPre_updAttrs_congr {s u : St} (hc : u.cfg = s.cfg) (hs : u.seg = s.seg
   obtain ⟨a, b⟩ := h kv hkv
   exact ⟨fun hv => by rw [h6]; exact a hv, fun hn hp => b (by rw [← hs]; exact hn) (by rw [← h5]; exact hp)⟩
 
+theorem uUpdateAttrs_of_prim {u u' : St} {n : Node} {row : List (Key × Val)} {r : PrimRec}
+    (h : u.pUpdAttrs n row = .ok (u', r)) : u.uUpdateAttrs n row = (u', .ok [r]) := by
+  unfold uUpdateAttrs
+  rw [thenPrim_ok_acc (recs := []) rfl]
+  simp only [h]; rfl
+
 /-- one accepted `UpdateNodeAttrs` from an `Inv` state under `OpPre`: a lawful one-record chain,
     `Inv` again, registry / control fields / array untouched -/
 theorem upd_one {u u' : St} {n : Node} {row : List (Key × Val)} {r : PrimRec} (hI : Inv u)
     (hpre : OpPre u (.updAttrs n row)) (h : u.pUpdAttrs n row = .ok (u', r)) :
     Chain E u [r] u' ∧ Inv u' ∧ u'.cfg = u.cfg ∧ u'.seg = u.seg := by
-  have hU : u.uUpdateAttrs n row = (u', .ok [r]) := by
-    unfold uUpdateAttrs
-    rw [thenPrim_ok_acc (recs := []) rfl]
-    simp only [h]; rfl
+  have hU := uUpdateAttrs_of_prim h
   have hc : Chain E u [r] (u.uUpdateAttrs n row).1 :=
     (userOK_updAttrs hI hpre (recs := [r]) (by rw [hU])).chain
   rw [hU] at hc
@@ -327,85 +372,119 @@ theorem upd_one {u u' : St} {n : Node} {row : List (Key × Val)} {r : PrimRec} (
   rw [hstep] at hi
   exact ⟨hc, (inv_committed_iff u' [r] none).1 hi, cfg_pUpdAttrs h, (R2G.Fs.pUpdAttrs h).seg⟩
 
-theorem upd_fold (s : St) (cols : List (Key × List Val)) : ∀ (l : List (Nat × Node)) (u : St)
-    (recs0 : List PrimRec), Inv u → Chain E s recs0 u → u.cfg = s.cfg → u.seg = s.seg →
-    (∀ p ∈ l, ∀ row, attrRow cols p.1 = some row → OpPre s (.updAttrs p.2 row)) →
-    ∀ recs, (l.foldl (updF cols) (u, .ok recs0)).2 = .ok recs →
-      Chain E s recs (l.foldl (updF cols) (u, .ok recs0)).1 ∧ Inv (l.foldl (updF cols) (u, .ok recs0)).1 ∧
-      (l.foldl (updF cols) (u, .ok recs0)).1.cfg = s.cfg
-  | [], u, recs0, hI, hc, hcfg, _, _, recs, hok => by
-    simp only [foldl_nil] at hok ⊢
-    cases hok
-    exact ⟨hc, hI, hcfg⟩
-  | p :: l, u, recs0, hI, hc, hcfg, hseg, hpre, recs, hok => by
-    rw [foldl_cons] at hok ⊢
-    have hstep : updF cols (u, .ok recs0) p =
-        match (match attrRow cols p.1 with
-          | none => (.error .other : Except Err (St × PrimRec))
-          | some row => u.pUpdAttrs p.2 row) with
-        | .ok (s', r) => (s', .ok (recs0 ++ [r]))
-        | .error e => (u, .error e) := thenPrim_ok_acc rfl _
-    cases hrow : attrRow cols p.1 with
-    | none =>
-      simp only [hrow] at hstep
-      rw [hstep, fold_err] at hok; cases hok
-    | some row =>
-      simp only [hrow] at hstep
-      cases hp : u.pUpdAttrs p.2 row with
-      | error e =>
-        simp only [hp] at hstep
-        rw [hstep, fold_err] at hok; cases hok
-      | ok v =>
-        obtain ⟨u', r⟩ := v
-        simp only [hp] at hstep
-        rw [hstep] at hok ⊢
-        have hpre' : OpPre u (.updAttrs p.2 row) :=
-          opPre_updAttrs_congr hcfg hseg (hpre p (by simp) row hrow)
-        obtain ⟨c1, i1, f1, g1⟩ := upd_one hI hpre' hp
-        exact upd_fold s cols l u' (recs0 ++ [r]) i1 (chain_append hc c1) (f1.trans hcfg) (g1.trans hseg)
-          (fun q hq => hpre q (by simp [hq])) recs hok
+/-- one accepted `UpdateNodeAttrs` from a state with the graph invariants (`Valid`, `Good`,
+    `EdgeInv`), ANY row: a lawful one-record chain, the graph invariants again -/
+theorem upd_one3 {u u' : St} {n : Node} {row : List (Key × Val)} {r : PrimRec} (hI : R3B.Inv3 u)
+    (h : u.pUpdAttrs n row = .ok (u', r)) : Chain E u [r] u' ∧ R3B.Inv3 u' := by
+  have hU := uUpdateAttrs_of_prim h
+  obtain ⟨hr, hi⟩ := R3B.uUpdateAttrs_run hI (n := n) (attrs := row) (recs := [r]) (by rw [hU])
+  have hc := hr.chain (recs := [r]) (by rw [hU])
+  rw [hU] at hc hi
+  exact ⟨hc, hi⟩
 
-/-- the precondition of `update_node_attrs(nodes, attributes)`: the lifted `OpPre` of every row, and
-    the call is accepted or has at most one element (otherwise: `C11_controller_update_attrs_partial`) -/
+/-- the loop from a state with the graph invariants, any nodes, any columns: the applied records are
+    a lawful chain into the state the loop stops in -/
+theorem updLoop_chain3 {s : St} (hI : R3B.Inv3 s) (ns : List Node) (cols : List (Key × List Val)) :
+    Chain E s (s.updLoop ns cols).2.1 (s.updLoop ns cols).1 ∧ R3B.Inv3 (s.updLoop ns cols).1 := by
+  rw [updLoop_eq]
+  exact loop_fold s cols R3B.Inv3 (fun _ _ => True) (fun u u' n row r hP _ hp => upd_one3 hP hp)
+    (indexed ns) s [] hI (chain_nil s) (fun _ _ _ _ => trivial)
+
+/-- the loop from an `Inv` state whose rows satisfy the lifted `OpPre`: additionally `Inv` and an
+    untouched registry / history / refresh log -/
+theorem updLoop_inv {s : St} (hI : Inv s) {ns : List Node} {cols : List (Key × List Val)}
+    (hpre : ∀ p ∈ indexed ns, ∀ row, attrRow cols p.1 = some row → OpPre s (.updAttrs p.2 row)) :
+    Chain E s (s.updLoop ns cols).2.1 (s.updLoop ns cols).1 ∧ Inv (s.updLoop ns cols).1 ∧
+    (s.updLoop ns cols).1.cfg = s.cfg := by
+  rw [updLoop_eq]
+  obtain ⟨c, i, f, -⟩ := loop_fold s cols (fun u => Inv u ∧ u.cfg = s.cfg ∧ u.seg = s.seg)
+    (fun n row => OpPre s (.updAttrs n row))
+    (fun u u' n row r hP hQ hp => by
+      obtain ⟨c1, i1, f1, g1⟩ := upd_one hP.1 (opPre_updAttrs_congr hP.2.1 hP.2.2 hQ) hp
+      exact ⟨c1, i1, f1.trans hP.2.1, g1.trans hP.2.2⟩)
+    (indexed ns) s [] ⟨hI, rfl, rfl⟩ (chain_nil s) hpre
+  exact ⟨c, i, f⟩
+
+theorem ctl_updLoop (s : St) (ns : List Node) (cols : List (Key × List Val)) :
+    (s.updLoop ns cols).1.ctl = s.ctl := by
+  rw [updLoop_eq]
+  have : ∀ (l : List (Nat × Node)) (acc : LoopAcc), (l.foldl (loopF cols) acc).1.ctl = acc.1.ctl := by
+    intro l
+    induction l with
+    | nil => intro acc; rfl
+    | cons p l ih =>
+      intro acc
+      rw [foldl_cons, ih]
+      obtain ⟨u, recs, o⟩ := acc
+      cases o with
+      | some e => rfl
+      | none =>
+        rcases loopF_cases cols u recs p with ⟨e, he⟩ | ⟨row, u', r, -, hp, he⟩
+        · rw [he]
+        · rw [he]; exact ctl_pUpdAttrs hp
+  exact this _ _
+
+/-- the two outcomes of the repaired `_update_node_attrs` -/
+theorem updRows_cases (s : St) (ns : List Node) (cols : List (Key × List Val)) :
+    ((s.updLoop ns cols).2.2 = none ∧ s.updRows ns cols = ((s.updLoop ns cols).1, .ok (s.updLoop ns cols).2.1)) ∨
+    (∃ e, (s.updLoop ns cols).2.2 = some e ∧
+      s.updRows ns cols = ((s.updLoop ns cols).1.rollback (s.updLoop ns cols).2.1, .error e)) := by
+  unfold updRows
+  cases h : (s.updLoop ns cols).2.2 with
+  | none => exact .inl ⟨rfl, by simp only [h]⟩
+  | some e => exact .inr ⟨e, rfl, by simp only [h]⟩
+
+theorem ctl_updRows (s : St) (ns : List Node) (cols : List (Key × List Val)) :
+    (s.updRows ns cols).1.ctl = s.ctl := by
+  rcases updRows_cases s ns cols with ⟨-, h⟩ | ⟨e, -, h⟩
+  · rw [h]; exact ctl_updLoop s ns cols
+  · rw [h]; exact (ctl_rollback _ _).trans (ctl_updLoop s ns cols)
+
+/-- the precondition of `update_node_attrs(nodes, attributes)`: the lifted `OpPre` of every row -/
 def AttrsPre (s : St) (ns : List Node) (cols : List (Key × List Val)) : Prop :=
-  (∀ p ∈ indexed ns, ∀ row, attrRow cols p.1 = some row → OpPre s (.updAttrs p.2 row)) ∧
-  ((∃ recs, (s.updRows ns cols).2 = .ok recs) ∨ ns.length ≤ 1)
+  ∀ p ∈ indexed ns, ∀ row, attrRow cols p.1 = some row → OpPre s (.updAttrs p.2 row)
 
 /-- an accepted `update_node_attrs`: ONE history entry, a lawful chain over all updated nodes -/
 theorem updateNodeAttrs_ok {s : St} (hI : Inv s) {ns : List Node} {cols : List (Key × List Val)}
-    (hpre : ∀ p ∈ indexed ns, ∀ row, attrRow cols p.1 = some row → OpPre s (.updAttrs p.2 row))
-    (hok : (s.ctlUpdateNodeAttrs ns cols).2 = .ok) :
+    (hpre : AttrsPre s ns cols) (hok : (s.ctlUpdateNodeAttrs ns cols).2 = .ok) :
     ∃ recs, (s.updRows ns cols).2 = .ok recs ∧
       (s.ctlUpdateNodeAttrs ns cols).1 = committed (s.updRows ns cols).1 recs none ∧
       (s.ctlUpdateNodeAttrs ns cols).1.hist = s.hist.add recs ∧
       Chain E s recs (s.ctlUpdateNodeAttrs ns cols).1 ∧ Inv (s.ctlUpdateNodeAttrs ns cols).1 := by
   unfold ctlUpdateNodeAttrs at hok ⊢
   obtain ⟨recs, h1, h2⟩ := commit_group _ _ hok
-  have hf := upd_fold s cols (indexed ns) s [] hI (chain_nil s) rfl rfl hpre recs
-    (by rw [← updRows_eq]; exact h1)
-  rw [← updRows_eq] at hf
-  obtain ⟨c, i, f⟩ := hf
-  have hh : (s.updRows ns cols).1.hist = s.hist := by
-    simp only [cfg, Prod.mk.injEq] at f; exact f.1
-  refine ⟨recs, h1, h2, ?_, ?_, ?_⟩
-  · rw [h2]; show (s.updRows ns cols).1.hist.add recs = _; rw [hh]
-  · rw [h2]; exact chain_congr c (E_isEquiv.refl s) (E_isEquiv.symm (E_committed _ _ _))
-  · rw [h2]; exact (inv_committed_iff _ _ _).2 i
+  obtain ⟨c, i, f⟩ := updLoop_inv hI hpre
+  rcases updRows_cases s ns cols with ⟨-, hr⟩ | ⟨e, -, hr⟩
+  · rw [hr] at h1
+    simp only [Except.ok.injEq] at h1
+    subst h1
+    have hh : (s.updLoop ns cols).1.hist = s.hist := by
+      simp only [cfg, Prod.mk.injEq] at f; exact f.1
+    refine ⟨_, by rw [hr], h2, ?_, ?_, ?_⟩
+    · rw [h2, hr]; show (s.updLoop ns cols).1.hist.add _ = _; rw [hh]
+    · rw [h2, hr]; exact chain_congr c (E_isEquiv.refl s) (E_isEquiv.symm (E_committed _ _ _))
+    · rw [h2, hr]; exact (inv_committed_iff _ _ _).2 i
+  · rw [hr] at h1; cases h1
 
-/-- a raising `update_node_attrs` with at most one element leaves the state untouched -/
-theorem updateNodeAttrs_err_small {s : St} {ns : List Node} {cols : List (Key × List Val)} {e : Err}
-    (hlen : ns.length ≤ 1) (herr : (s.ctlUpdateNodeAttrs ns cols).2 = .err e) :
-    (s.ctlUpdateNodeAttrs ns cols).1 = s := by
+/-- **a refused `update_node_attrs` (repaired code)**: from a state with the graph invariants, for
+    any nodes and columns, the state returned with the exception is in the `E`-class of the input —
+    the applied updates were rolled back —, and the history / refresh log are untouched -/
+theorem updateNodeAttrs_refused {s : St} (hI : R3B.Inv3 s) {ns : List Node} {cols : List (Key × List Val)}
+    {e : Err} (herr : (s.ctlUpdateNodeAttrs ns cols).2 = .err e) :
+    E (s.ctlUpdateNodeAttrs ns cols).1 s ∧ (s.ctlUpdateNodeAttrs ns cols).1.ctl = s.ctl := by
   unfold ctlUpdateNodeAttrs at herr ⊢
   rcases commit_cases (s.updRows ns cols) none with ⟨recs, _, h2⟩ | ⟨e', h1, h2⟩
   · rw [h2] at herr; cases herr
   · rw [h2]
-    match ns, hlen with
-    | [], _ => rfl
-    | [n], _ =>
-      have : s.updRows [n] cols = updF cols (s, .ok []) (0, n) := rfl
-      rw [this] at h1 ⊢
-      exact (thenPrim_err_state h1).1
+    refine ⟨?_, ctl_updRows s ns cols⟩
+    rcases updRows_cases s ns cols with ⟨-, hr⟩ | ⟨x, -, hr⟩
+    · rw [hr] at h1; cases h1
+    · rw [hr]
+      obtain ⟨c, -⟩ := updLoop_chain3 hI ns cols
+      obtain ⟨s₂, recs', g1, g2, -⟩ := chain_undo_redo c (E_isEquiv.refl _)
+      show E ((s.updLoop ns cols).1.rollback (s.updLoop ns cols).2.1) s
+      unfold rollback
+      rw [g1]; exact g2
 
 /-! ## §5 the controller session -/
 
@@ -465,7 +544,7 @@ theorem ctl_step_inv {s : St} {t : Timeline St} (h : CInv s t) (c : CtlOp) (hpre
   by_cases hc : IsUpdAttrs c
   · cases c with
     | updateNodeAttrs ns cols =>
-      obtain ⟨hrows, hacc⟩ := (hpre : AttrsPre s ns cols)
+      have hrows : AttrsPre s ns cols := hpre
       simp only [ctlAbs]
       rcases commit_cases (s.updRows ns cols) none with ⟨recs, h1, h2⟩ | ⟨e, h1, h2⟩
       · have hok : (s.ctlUpdateNodeAttrs ns cols).2 = .ok := by unfold ctlUpdateNodeAttrs; rw [h2]
@@ -485,10 +564,11 @@ theorem ctl_step_inv {s : St} {t : Timeline St} (h : CInv s t) (c : CtlOp) (hpre
           show ¬ (s.ctlUpdateNodeAttrs ns cols).2 = .ok
           rw [herr]; exact fun h => by cases h
         rw [if_neg hne]
-        rcases hacc with ⟨recs, hr⟩ | hlen
-        · rw [h1] at hr; cases hr
-        · show CInv (s.ctlUpdateNodeAttrs ns cols).1 t
-          rw [updateNodeAttrs_err_small hlen herr]; exact h
+        show CInv (s.ctlUpdateNodeAttrs ns cols).1 t
+        obtain ⟨hE, hctl⟩ := updateNodeAttrs_refused ⟨h.inv.valid, h.inv.good, h.inv.edge⟩ herr
+        refine ⟨?_, Inv.of_E hE h.inv, h.all⟩
+        rw [hist_of_ctl hctl]
+        exact Hist.Refines.congr_state obligation_E.laws h.ref hE
     | _ => exact absurd hc (fun h => h)
   · rw [ctlPre_of_not hc] at hpre
     rw [ctlStep_expand s c hc, ctlAbs_of_not hc, ← sessFinal_fst _ s t]
@@ -558,22 +638,6 @@ theorem newNodeIds_length (s : St) (n : Nat) : (s.newNodeIds n).2.length = n := 
     ([], s.counter + n)
   simp only [length_nil, length_map, length_range, Nat.zero_add] at h
   exact h
-
-theorem ctl_updRows (s : St) (ns : List Node) (cols : List (Key × List Val)) :
-    (s.updRows ns cols).1.ctl = s.ctl := by
-  rw [updRows_eq]
-  have : ∀ (l : List (Nat × Node)) (acc : UOut), (l.foldl (updF cols) acc).1.ctl = acc.1.ctl := by
-    intro l
-    induction l with
-    | nil => intro acc; rfl
-    | cons p l ih =>
-      intro acc
-      rw [foldl_cons, ih]
-      refine ctl_thenPrim acc _ (fun st st' r h => ?_)
-      split at h
-      · cases h
-      · exact ctl_pUpdAttrs h
-  exact this _ _
 
 /-- the statement of `C02_controller_steps` for the calls that are not undo / redo / is_valid -/
 def StepsSpec (s : St) (c : CtlOp) : Prop :=
@@ -906,18 +970,15 @@ theorem indexed_cons {α : Type} (x : α) (l : List α) : ∃ tl, indexed (x :: 
   simp [indexed, List.range_succ_eq_map]
 
 /-- through the columnar API a protected key is met at the FIRST node: `update_node_attrs` with a
-    protected column (and at least one node) raises with nothing applied -/
+    protected column (and at least one node) raises with nothing applied (and nothing to roll back) -/
 theorem updateNodeAttrs_protected (s : St) (n : Node) (ns : List Node) (cols : List (Key × List Val))
     (hp : ∃ kv ∈ cols, kv.1 ∈ s.protectedKeys) :
     ∃ e, s.ctlStep (.updateNodeAttrs (n :: ns) cols) = (s, .err e) := by
   obtain ⟨tl, htl⟩ := indexed_cons n ns
-  have hfirst : ∃ e, updF cols (s, .ok []) (0, n) = (s, .error e) := by
-    unfold updF
-    rw [thenPrim_ok_acc (recs := []) rfl]
-    cases hrow : attrRow cols 0 with
-    | none => exact ⟨.other, rfl⟩
-    | some row =>
-      refine ⟨.value, ?_⟩
+  have hfirst : ∃ e, loopF cols (s, [], none) (0, n) = (s, [], some e) := by
+    rcases loopF_cases cols s [] (0, n) with h | ⟨row, u', r, hrow, hpu, -⟩
+    · exact h
+    · exfalso
       have hany : row.any (fun kv => s.protectedKeys.contains kv.1) = true := by
         unfold attrRow at hrow
         split at hrow
@@ -926,11 +987,15 @@ theorem updateNodeAttrs_protected (s : St) (n : Node) (ns : List Node) (cols : L
           rw [List.any_eq_true]
           exact ⟨(kv.1, kv.2.getD 0 Val.none), List.mem_map.2 ⟨kv, hkv, rfl⟩, by simpa using hk⟩
         · cases hrow
-      simp only [pUpdAttrs, hany, if_true]
+      simp only [pUpdAttrs, hany, if_true] at hpu
+      cases hpu
   obtain ⟨e, he⟩ := hfirst
   refine ⟨e, ?_⟩
+  have hl : s.updLoop (n :: ns) cols = (s, [], some e) := by
+    rw [updLoop_eq, htl, foldl_cons, he, loop_err]
   show commit (s.updRows (n :: ns) cols) none = _
-  rw [updRows_eq, htl, foldl_cons, he, fold_err]
+  unfold updRows
+  rw [hl]
   rfl
 
 end Ft.R7T
